@@ -52,6 +52,7 @@ func VerifC07Sequential() {
 
 // two threads, one NextSequenceNumber each, any interleaving, any start state
 func VerifC07Concurrent2x1() {
+	globalMathRandomGenerator = verifRand{}
 	s0, roc0 := verifU16("seq0"), verifU64("roc0")
 	s := &sequencer{sequenceNumber: s0, rollOverCount: roc0}
 	var a, b uint16
@@ -73,6 +74,7 @@ func VerifC07Concurrent2x1() {
 
 // three threads: two issue numbers, one reads the roll-over count in between
 func VerifC07Concurrent3() {
+	globalMathRandomGenerator = verifRand{}
 	s0, roc0 := verifU16("seq0"), verifU64("roc0")
 	s := &sequencer{sequenceNumber: s0, rollOverCount: roc0}
 	var a, b uint16
@@ -91,6 +93,7 @@ func VerifC07Concurrent3() {
 
 // two threads with two operations each: per-thread order is preserved
 func VerifC07Concurrent2x2() {
+	globalMathRandomGenerator = verifRand{}
 	s0, roc0 := verifU16("seq0"), verifU64("roc0")
 	s := &sequencer{sequenceNumber: s0, rollOverCount: roc0}
 	var a1, a2, b1, b2 uint16
@@ -114,6 +117,7 @@ func VerifC07Concurrent2x2() {
 
 // three threads, each issuing one number
 func VerifC07Concurrent3Next() {
+	globalMathRandomGenerator = verifRand{}
 	s0, roc0 := verifU16("seq0"), verifU64("roc0")
 	s := &sequencer{sequenceNumber: s0, rollOverCount: roc0}
 	var a, b, c uint16
@@ -135,6 +139,7 @@ func VerifC07Concurrent3Next() {
 // one thread issues two numbers while another reads the roll-over count twice:
 // the count never decreases and stays within the zeros issued
 func VerifC07ConcurrentMixed() {
+	globalMathRandomGenerator = verifRand{}
 	s0, roc0 := verifU16("seq0"), verifU64("roc0")
 	verifAssume(roc0 < 1<<62)
 	s := &sequencer{sequenceNumber: s0, rollOverCount: roc0}
@@ -149,4 +154,79 @@ func VerifC07ConcurrentMixed() {
 	verifAssert("C07.mix.roc-upper", r2 <= roc0+verifZero(a1)+verifZero(a2))
 	verifAssert("C07.mix.roc-final", s.rollOverCount == roc0+verifZero(a1)+verifZero(a2))
 	verifCover("C07.mix.end")
+}
+
+// one thread issues a single number while another issues four in a row: enough
+// room for an optimistic increment to be overtaken several times
+func VerifC07Concurrent1x4() {
+	globalMathRandomGenerator = verifRand{}
+	s0, roc0 := verifU16("seq0"), verifU64("roc0")
+	s := &sequencer{sequenceNumber: s0, rollOverCount: roc0}
+	var a uint16
+	var b [4]uint16
+	verifThread(func() { a = s.NextSequenceNumber() })
+	verifThread(func() { b[0] = s.NextSequenceNumber() }, func() { b[1] = s.NextSequenceNumber() },
+		func() { b[2] = s.NextSequenceNumber() }, func() { b[3] = s.NextSequenceNumber() })
+	verifJoin()
+	da := a - s0
+	verifAssert("C07.c14.range", da >= 1 && da <= 5)
+	zeros := verifZero(a)
+	for i := range b {
+		d := b[i] - s0
+		// the second thread's values are the remaining ones, in its program order
+		want := uint16(i + 1)
+		if da <= want {
+			want++
+		}
+		verifAssert("C07.c14.values", d == want)
+		zeros += verifZero(b[i])
+	}
+	verifAssert("C07.c14.state", s.sequenceNumber == s0+5)
+	verifAssert("C07.c14.rollover", s.rollOverCount == roc0+zeros)
+	if da == 3 {
+		verifCover("C07.c14.in-the-middle")
+	}
+	verifCover("C07.c14.end")
+}
+
+// a thread that issues a number and then reads the roll-over count sees every
+// zero issued up to its own number: value and count advance together
+func VerifC07ConcurrentNextThenCount() {
+	globalMathRandomGenerator = verifRand{}
+	s0, roc0 := verifU16("seq0"), verifU64("roc0")
+	verifAssume(roc0 < 1<<62)
+	s := &sequencer{sequenceNumber: s0, rollOverCount: roc0}
+	var a, b uint16
+	var r uint64
+	verifThread(func() { a = s.NextSequenceNumber() })
+	verifThread(func() { b = s.NextSequenceNumber() }, func() { r = s.RollOverCount() })
+	verifJoin()
+	da, db := a-s0, b-s0
+	verifAssert("C07.ntc.values", (da == 1 && db == 2) || (da == 2 && db == 1))
+	low := roc0 + verifZero(b)
+	if da < db {
+		low += verifZero(a) // a was issued before b, so its wrap is counted too
+	}
+	verifAssert("C07.ntc.count-includes-issued-zeros", r >= low)
+	verifAssert("C07.ntc.count-upper", r <= roc0+verifZero(a)+verifZero(b))
+	if a == 0 && db == 2 {
+		verifCover("C07.ntc.wrap-then-read")
+	}
+	verifCover("C07.ntc.end")
+}
+
+// the first calls on a random sequencer may be concurrent too
+func VerifC07RandomConcurrent() {
+	globalMathRandomGenerator = verifRand{}
+	s := NewRandomSequencer()
+	var a, b uint16
+	verifThread(func() { a = s.NextSequenceNumber() })
+	verifThread(func() { b = s.NextSequenceNumber() })
+	verifJoin()
+	verifAssert("C07.rc.consecutive", a == b+1 || b == a+1)
+	verifAssert("C07.rc.start-below-2^15", a <= 1<<15 && b <= 1<<15 && (a < 1<<15 || b < 1<<15))
+	verifAssert("C07.rc.roc", s.RollOverCount() == 0)
+	next := s.NextSequenceNumber()
+	verifAssert("C07.rc.next", (a > b && next == a+1) || (b > a && next == b+1))
+	verifCover("C07.rc.end")
 }
